@@ -176,3 +176,190 @@ Example arith_reg_imm_witness :
   arith_reg_imm 5 2 true false false 128 =
     Some {| ae_opsize := 2; ae_short := true; ae_opc := 45; ae_immsize := 2; ae_field := 128 |}.
 Proof. repeat split; vm_compute; reflexivity. Qed.
+
+(* ---------- TEST r/m, imm ---------- *)
+Lemma full_field opsize v : size_ok4 opsize -> (opsize = 8 -> - 2 ^ 31 <= v < 2 ^ 31) ->
+  sx (8 * Z.min opsize 4) (imm_field v (Z.min opsize 4)) mod 2 ^ (8 * opsize) = v mod 2 ^ (8 * opsize).
+Proof. intros Hs H8. apply effective_ok; [exact Hs | left; reflexivity | exact H8]. Qed.
+
+Lemma int32_of_checked size imm : i64 imm -> (true && (size =? 8) && negb (is_int32 imm)) = false ->
+  size = 8 -> - 2 ^ 31 <= imm < 2 ^ 31.
+Proof.
+  intros Hi H ->. cbn [Z.eqb Pos.eqb andb] in H. apply negb_false_iff in H. rewrite is_int32_spec in H by exact Hi.
+  apply andb_true_iff in H. destruct H as [A B]. apply Z.leb_le in A. apply Z.ltb_lt in B. lia.
+Qed.
+
+Theorem test_reg_imm_exact size acc longform imm e :
+  size_ok4 size -> i64 imm -> test_reg_imm true size acc longform imm = Some e ->
+  effective_imm e = imm mod 2 ^ (8 * size) /\ ae_opsize e = size /\ ae_immsize e = Z.min size 4 /\
+  (size = 8 -> - 2 ^ 31 <= imm < 2 ^ 31).
+Proof.
+  intros Hs Hi He. unfold test_reg_imm in He.
+  destruct (true && (size =? 8) && negb (is_int32 imm)) eqn:Ec; [discriminate|].
+  pose proof (int32_of_checked size imm Hi Ec) as H8.
+  assert (Hm : (if size =? 1 then 1 else Z.min size 4) = Z.min size 4) by (destruct (Z.eqb_spec size 1) as [->|]; reflexivity).
+  rewrite Hm in He.
+  destruct (acc && negb longform); apply (f_equal (fun o => match o with Some x => x | None => e end)) in He; subst e;
+    unfold effective_imm; cbn [ae_opsize ae_immsize ae_field];
+    (split; [apply full_field; assumption|]); repeat split; try reflexivity; apply H8; assumption.
+Qed.
+
+Theorem test_reg_imm_refused_iff size acc longform imm : size_ok4 size -> i64 imm ->
+  (test_reg_imm true size acc longform imm = None <-> size = 8 /\ ~ (- 2 ^ 31 <= imm < 2 ^ 31)).
+Proof.
+  intros Hs Hi. unfold test_reg_imm. cbn [andb].
+  destruct Hs as [-> | [-> | [-> | ->]]]; cbn [Z.eqb Pos.eqb andb]; try (destruct (acc && negb longform); cbv iota; (split; [discriminate | intros [H _]; discriminate H])).
+  rewrite is_int32_spec by exact Hi.
+  destruct (Z.leb_spec (- 2 ^ 31) imm), (Z.ltb_spec imm (2 ^ 31)); cbn [andb negb]; try (destruct (acc && negb longform); cbv iota);
+    split; intros H'; try discriminate; try lia; reflexivity.
+Qed.
+
+Theorem test_mem_imm_exact mem_size imm e :
+  size_ok4 mem_size -> i64 imm -> test_mem_imm true mem_size imm = Some e ->
+  effective_imm e = imm mod 2 ^ (8 * mem_size) /\ ae_opsize e = mem_size /\ (mem_size = 8 -> - 2 ^ 31 <= imm < 2 ^ 31).
+Proof.
+  intros Hs Hi He. unfold test_mem_imm in He.
+  destruct (true && (mem_size =? 8) && negb (is_int32 imm)) eqn:Ec; [discriminate|].
+  pose proof (int32_of_checked mem_size imm Hi Ec) as H8.
+  apply (f_equal (fun o => match o with Some x => x | None => e end)) in He; subst e.
+  unfold effective_imm; cbn [ae_opsize ae_immsize ae_field]. split; [apply full_field; assumption|]. split; [reflexivity | exact H8].
+Qed.
+
+(* ---------- MOV reg, imm: always encodable, the register receives exactly the immediate ---------- *)
+Theorem mov_reg_imm_exact size acc optsize longform imm :
+  size_ok4 size -> i64 imm ->
+  let e := mov_reg_imm size acc optsize longform imm in
+  effective_imm e = imm mod 2 ^ (8 * ae_opsize e) /\
+  (size <> 8 -> ae_opsize e = size) /\
+  (size = 8 -> ae_opsize e = 8 \/ (ae_opsize e = 4 /\ 0 <= imm < 2 ^ 32)) /\
+  (longform = true -> ae_opsize e = size /\ ae_immsize e = size).
+Proof.
+  intros Hs Hi e. subst e. unfold mov_reg_imm.
+  destruct (Z.eqb_spec size 1) as [->|Hn1].
+  { unfold effective_imm; cbn [ae_opsize ae_immsize ae_field]. split; [apply field_mod; lia|]. repeat split; try reflexivity. discriminate. }
+  rewrite is_uint32_spec, is_int32_spec by exact Hi.
+  assert (Hfull : forall k, (k = 2 \/ k = 4 \/ k = 8) -> sx (8 * k) (imm_field imm k) mod 2 ^ (8 * k) = imm mod 2 ^ (8 * k))
+    by (intros k Hk; apply field_mod; lia).
+  destruct Hs as [-> | [-> | [-> | ->]]]; [contradiction | | |]; cbn [Z.eqb Pos.eqb andb].
+  - unfold effective_imm; cbn [ae_opsize ae_immsize ae_field]. split; [apply Hfull; lia|]. repeat split; try reflexivity; discriminate.
+  - unfold effective_imm; cbn [ae_opsize ae_immsize ae_field]. split; [apply Hfull; lia|]. repeat split; try reflexivity; discriminate.
+  - destruct longform; cbn [negb andb].
+    + unfold effective_imm; cbn [ae_opsize ae_immsize ae_field]. split; [apply Hfull; lia|].
+      split; [intros H; contradiction|]. split; [intros _; left; reflexivity|]. intros _; split; reflexivity.
+    + destruct (Z.leb_spec 0 imm), (Z.ltb_spec imm (2 ^ 32)), optsize; cbn [andb];
+        try (destruct (Z.leb_spec (- 2 ^ 31) imm), (Z.ltb_spec imm (2 ^ 31)); cbn [andb]);
+        unfold effective_imm; cbn [ae_opsize ae_immsize ae_field];
+        (split; [first [apply Hfull; lia | apply (full_field 8 imm); [right; right; right; reflexivity | intros _; lia]] |]);
+        (split; [intros H'; contradiction|]); (split; [intros _; first [left; reflexivity | right; split; [reflexivity | lia]] |]); discriminate.
+Qed.
+
+Theorem mov_mem_imm_exact mem_size imm e :
+  size_ok4 mem_size -> i64 imm -> mov_mem_imm true mem_size imm = Some e ->
+  effective_imm e = imm mod 2 ^ (8 * mem_size) /\ ae_opsize e = mem_size /\ (mem_size = 8 -> - 2 ^ 31 <= imm < 2 ^ 31).
+Proof.
+  intros Hs Hi He. unfold mov_mem_imm in He.
+  destruct (true && (mem_size =? 8) && negb (is_int32 imm)) eqn:Ec; [discriminate|].
+  pose proof (int32_of_checked mem_size imm Hi Ec) as H8.
+  apply (f_equal (fun o => match o with Some x => x | None => e end)) in He; subst e.
+  unfold effective_imm; cbn [ae_opsize ae_immsize ae_field]. split; [apply full_field; assumption|]. split; [reflexivity | exact H8].
+Qed.
+
+Theorem test_mov_mem_refused_iff mem_size imm : size_ok4 mem_size -> i64 imm ->
+  (test_mem_imm true mem_size imm = None <-> mem_size = 8 /\ ~ (- 2 ^ 31 <= imm < 2 ^ 31)) /\
+  (mov_mem_imm true mem_size imm = None <-> mem_size = 8 /\ ~ (- 2 ^ 31 <= imm < 2 ^ 31)).
+Proof.
+  intros Hs Hi. unfold test_mem_imm, mov_mem_imm. cbn [andb].
+  destruct Hs as [-> | [-> | [-> | ->]]]; cbn [Z.eqb Pos.eqb andb]; try (split; split; [discriminate | intros [H _]; discriminate H | discriminate | intros [H _]; discriminate H]).
+  rewrite is_int32_spec by exact Hi.
+  destruct (Z.leb_spec (- 2 ^ 31) imm), (Z.ltb_spec imm (2 ^ 31)); cbn [andb negb]; split; split; intros H'; try discriminate; try lia; reflexivity.
+Qed.
+
+(* KNOWN FINDING: without the test, TEST r/m64 and MOV m64 truncate a 64-bit immediate to its low 32 bits *)
+Theorem test_mov_imm64_unchecked_refuted :
+  (exists imm e, i64 imm /\ test_reg_imm false 8 true false imm = Some e /\ effective_imm e <> imm mod 2 ^ 64) /\
+  (exists imm e, i64 imm /\ test_mem_imm false 8 imm = Some e /\ effective_imm e <> imm mod 2 ^ 64) /\
+  (exists imm e, i64 imm /\ mov_mem_imm false 8 imm = Some e /\ effective_imm e <> imm mod 2 ^ 64).
+Proof.
+  repeat split; exists (2 ^ 32); eexists; (split; [split; [discriminate | reflexivity]|]); (split; [vm_compute; reflexivity|]);
+    vm_compute; discriminate.
+Qed.
+
+Example mov_reg_imm_witness :
+  mov_reg_imm 8 false false false 4294967295 = {| ae_opsize := 8; ae_short := true; ae_opc := 185; ae_immsize := 8; ae_field := 4294967295 |} /\
+  mov_reg_imm 8 false true false 4294967295 = {| ae_opsize := 4; ae_short := true; ae_opc := 185; ae_immsize := 4; ae_field := 4294967295 |} /\
+  mov_reg_imm 8 true false false (-1) = {| ae_opsize := 8; ae_short := false; ae_opc := 199; ae_immsize := 4; ae_field := 4294967295 |} /\
+  test_reg_imm true 8 true false 2147483648 = None /\ mov_mem_imm true 8 (-2147483648) <> None.
+Proof. repeat split; try (vm_compute; reflexivity). vm_compute. discriminate. Qed.
+
+(* ---------- IMUL r, r/m, imm and PUSH imm (64-bit mode) ---------- *)
+Theorem imul_imm_exact mem size longform imm e :
+  (size = 2 \/ size = 4 \/ size = 8) -> i64 imm -> imul_imm true mem size longform imm = Some e ->
+  effective_imm e = imm mod 2 ^ (8 * size) /\ ae_opsize e = size /\ (size = 8 -> - 2 ^ 31 <= imm < 2 ^ 31) /\
+  (ae_immsize e = 1 \/ ae_immsize e = Z.min size 4).
+Proof.
+  intros Hs Hi He. unfold imul_imm in He.
+  destruct (true && (size =? 8) && negb (is_int32 imm)) eqn:Ec; [discriminate|].
+  pose proof (int32_of_checked size imm Hi Ec) as H8.
+  set (v := if mem && (size =? 4) then sign_extend_int32 imm else imm) in He.
+  assert (Hv : i64 v) by (subst v; destruct (mem && (size =? 4)); [apply sx32_i64 | exact Hi]).
+  assert (Hcong : v mod 2 ^ (8 * size) = imm mod 2 ^ (8 * size)).
+  { subst v. destruct mem; cbn [andb]; [|reflexivity]. destruct (Z.eqb_spec size 4) as [->|]; [apply sx32_mod | reflexivity]. }
+  assert (Hv8 : size = 8 -> - 2 ^ 31 <= v < 2 ^ 31).
+  { intros E. subst v. rewrite E. cbn [Z.eqb Pos.eqb]. rewrite andb_false_r. apply H8. exact E. }
+  rewrite is_int8_spec in He by exact Hv.
+  assert (Hs4 : size_ok4 size) by (destruct Hs as [-> | [-> | ->]]; unfold size_ok4; lia).
+  assert (Hmin : (if size =? 2 then 2 else 4) = Z.min size 4) by (destruct Hs as [-> | [-> | ->]]; reflexivity).
+  rewrite Hmin in He.
+  set (imm_size := if (-128 <=? v) && (v <? 128) && negb longform then 1 else Z.min size 4) in He.
+  assert (Him : imm_size = Z.min size 4 \/ (imm_size = 1 /\ - 128 <= v < 128)).
+  { subst imm_size. destruct (Z.leb_spec (-128) v), (Z.ltb_spec v 128), longform; cbn [andb negb]; try (left; reflexivity).
+    right. split; [reflexivity | lia]. }
+  apply (f_equal (fun o => match o with Some x => x | None => e end)) in He; subst e.
+  unfold effective_imm; cbn [ae_opsize ae_immsize ae_field].
+  split; [rewrite <- Hcong; apply effective_ok; [exact Hs4 | exact Him | exact Hv8]|].
+  split; [reflexivity|]. split; [exact H8|]. destruct Him as [-> | (-> & _)]; [right | left]; reflexivity.
+Qed.
+
+Theorem push_imm_exact longform imm e :
+  i64 imm -> push_imm true longform imm = Some e ->
+  effective_imm e = imm mod 2 ^ 64 /\ - 2 ^ 31 <= imm < 2 ^ 31 /\ (ae_immsize e = 1 \/ ae_immsize e = 4).
+Proof.
+  intros Hi He. unfold push_imm in He. cbn [andb] in He.
+  rewrite is_int32_spec, is_int8_spec in He by exact Hi.
+  destruct (Z.leb_spec (- 2 ^ 31) imm), (Z.ltb_spec imm (2 ^ 31)); cbn [andb negb] in He; try discriminate.
+  set (imm_size := if (-128 <=? imm) && (imm <? 128) && negb longform then 1 else 4) in He.
+  assert (Him : imm_size = Z.min 8 4 \/ (imm_size = 1 /\ - 128 <= imm < 128)).
+  { subst imm_size. destruct (Z.leb_spec (-128) imm), (Z.ltb_spec imm 128), longform; cbn [andb negb]; try (left; reflexivity).
+    right. split; [reflexivity | lia]. }
+  apply (f_equal (fun o => match o with Some x => x | None => e end)) in He; subst e.
+  unfold effective_imm; cbn [ae_opsize ae_immsize ae_field]. change (8 * 8) with 64.
+  split; [change 64 with (8 * 8); apply effective_ok; [right; right; right; reflexivity | exact Him | intros _; lia]|].
+  split; [lia|]. destruct Him as [-> | (-> & _)]; [right | left]; reflexivity.
+Qed.
+
+Theorem imul_push_refused_iff mem size longform imm : (size = 2 \/ size = 4 \/ size = 8) -> i64 imm ->
+  (imul_imm true mem size longform imm = None <-> size = 8 /\ ~ (- 2 ^ 31 <= imm < 2 ^ 31)) /\
+  (push_imm true longform imm = None <-> ~ (- 2 ^ 31 <= imm < 2 ^ 31)).
+Proof.
+  intros Hs Hi. unfold imul_imm, push_imm. cbn [andb]. rewrite is_int32_spec by exact Hi.
+  destruct (Z.leb_spec (- 2 ^ 31) imm), (Z.ltb_spec imm (2 ^ 31)); cbn [andb negb];
+    destruct Hs as [-> | [-> | ->]]; cbn [Z.eqb Pos.eqb andb]; split; split; intros H'; try discriminate; try lia; try reflexivity;
+    try (destruct H' as [H'' _]; discriminate H'').
+Qed.
+
+Theorem imul_push_imm64_unchecked_refuted :
+  (exists imm e, i64 imm /\ imul_imm false false 8 false imm = Some e /\ effective_imm e <> imm mod 2 ^ 64) /\
+  (exists imm e, i64 imm /\ push_imm false false imm = Some e /\ effective_imm e <> imm mod 2 ^ 64).
+Proof.
+  split; exists (2 ^ 32); eexists; (split; [split; [discriminate | reflexivity]|]); (split; [vm_compute; reflexivity|]);
+    vm_compute; discriminate.
+Qed.
+
+Example imul_push_witness :
+  imul_imm true false 8 false 2147483647 = Some {| ae_opsize := 8; ae_short := false; ae_opc := 105; ae_immsize := 4; ae_field := 2147483647 |} /\
+  imul_imm true true 4 false 4294967295 = Some {| ae_opsize := 4; ae_short := false; ae_opc := 107; ae_immsize := 1; ae_field := 255 |} /\
+  imul_imm true false 4 false 4294967295 = Some {| ae_opsize := 4; ae_short := false; ae_opc := 105; ae_immsize := 4; ae_field := 4294967295 |} /\
+  imul_imm true false 8 false 2147483648 = None /\
+  push_imm true false (-128) = Some {| ae_opsize := 8; ae_short := true; ae_opc := 106; ae_immsize := 1; ae_field := 128 |} /\
+  push_imm true false 4294967295 = None.
+Proof. repeat split; vm_compute; reflexivity. Qed.
